@@ -14,7 +14,7 @@ PROPS = {
     'C03': {'units': ['opt', 'fuse'], 'kani': K_ANALYSIS},
     'C19': {'units': ['run19'], 'kani': K_CONTEXT},
     'C20': {'units': ['gad', 'fri', 'periodic'], 'kani': [], 'only': {'fri': r'evaluate_polynomial|circuit_exp_by_constant|lemma_'}},
-    'C07': {'units': ['fri', 'shape'], 'kani': [], 'only': {'shape': r'verify_fri_circuit'}, 'exclude': r'possible (bit shift|arithmetic)'},
+    'C07': {'units': ['fri', 'shape', 'fold'], 'kani': [], 'only': {'shape': r'verify_fri_circuit'}, 'exclude': r'possible (bit shift|arithmetic)'},
     'C05': {'units': ['chal'], 'kani': [], 'exclude': r'canonical_width'},
     'C06': {'units': ['bind'], 'kani': []},
     'C17': {'units': ['cache'], 'kani': []},
@@ -147,7 +147,9 @@ META['C07'] = {
             'circuit_exp_by_constant is x^n for every n > 0 (square-and-multiply invariant with bit-vector lemmas), reconstruct_evals rebuilds the native evaluation row for every arity (the folded value at the '
             'little-endian index of the boolean index bits, the siblings in order around it: closed forms for arity 1/2/4/8 and the generic one-hot + cumulative-sum path); and the validation prefix of verify_fri_circuit returns Ok only with every length '
             'fact the fold/query wiring indexes with.',
-    'note': 'GADGET KERNEL ONLY. Not under contract: one_hot_from_four_bits / one_hot_from_bits (generic arity; assumed callee of reconstruct_evals), fold_one_phase / fold_chain_circuit wiring, open_input height grouping (a seeded change there — unified-z fast path keyed on the first matrix — is NOT detected: BTreeMap/closure code outside the normaliser), '
+    'note': 'GADGET KERNEL ONLY. Not under contract: one_hot_from_four_bits / one_hot_from_bits (generic arity; assumed callee of reconstruct_evals), fold_chain_circuit wiring, open_input height grouping (a seeded change there — unified-z fast path keyed on the first matrix — is NOT detected: BTreeMap/closure code outside the normaliser), '
+            'Unit fold: fold_one_phase (arity-2 fast path, unrolled arity 4 and 8, general in-place loop, roll-in) equals the native fold tree of the reconstructed row at the points ss^(2^s) * twiddle, '
+            'challenge beta^(2^s), under the precondition that the evaluation points are non-zero; compute_subgroup_points returns ss * omega^br(i). '
             'proof-of-work, Merkle openings (C08), and the iff with the native verifier. Builder arithmetic contracts are assumed; -1/2 and bit_length are abstracted constants/stubs.',
 }
 
